@@ -649,14 +649,29 @@ func c06OrderedFilterG(v ssa.Value, old ssa.Value, isH func(ssa.Value) bool) boo
 		return false
 	}
 	okInit, okApp := false, false
-	for _, e := range ph.Edges {
+	// the join after `if keep { list = append(list, x) }` is a phi of (list, append(list, x)): flattened
+	var edges []ssa.Value
+	seenPhi := map[*ssa.Phi]bool{ph: true}
+	var flat func(es []ssa.Value)
+	flat = func(es []ssa.Value) {
+		for _, e := range es {
+			if x, isPhi := e.(*ssa.Phi); isPhi && !seenPhi[x] {
+				seenPhi[x] = true
+				flat(x.Edges)
+				continue
+			}
+			edges = append(edges, e)
+		}
+	}
+	flat(ph.Edges)
+	for _, e := range edges {
 		switch x := e.(type) {
 		case *ssa.MakeSlice:
 			okInit = true
 		case *ssa.Slice: // make lowered to new array + slice
 			okInit = true
 		case *ssa.Phi:
-			if x != ph {
+			if !seenPhi[x] {
 				return false
 			}
 		case *ssa.Call:
@@ -674,7 +689,7 @@ func c06OrderedFilterG(v ssa.Value, old ssa.Value, isH func(ssa.Value) bool) boo
 				return false
 			}
 			// index: forward range induction (phi + 1)
-			if b, ok := ia.Index.(*ssa.BinOp); !ok || b.Op != token.ADD {
+			if !isForwardRangeIndex(ia.Index) {
 				return false
 			}
 			// guard: handle != elem
